@@ -119,6 +119,7 @@ fn start_watchdog(prop: String, replaying: bool) {
                     original_ops: plan.ops.len(),
                     shrink_execs: 0,
                     plan,
+                    prefix: None,
                 }],
                 ..Default::default()
             };
@@ -288,6 +289,20 @@ pub struct ReplayFile {
     pub original_ops: usize,
     #[serde(default)]
     pub shrink_execs: usize,
+    /// set when the failure depends on state the engine keeps across runs inside one process:
+    /// the replay then re-executes the worker's earlier runs first
+    #[serde(default)]
+    pub prefix: Option<Prefix>,
+}
+
+#[derive(Serialize, Deserialize, Clone, Debug)]
+pub struct Prefix {
+    pub prop_arg: String,
+    pub tier: String,
+    pub seed: u64,
+    pub from: u64,
+    pub stride: u64,
+    pub upto: u64,
 }
 
 #[derive(Serialize, Default)]
@@ -313,6 +328,16 @@ struct Summary {
     samples: Vec<Plan>,
     wall_ms: u64,
     stopped_by_deadline: bool,
+}
+
+#[cfg(chess_verif_shuttle)]
+fn extra_fens() -> Vec<&'static str> {
+    sched::MATING_FENS.iter().chain(sched::BIG_SEARCH_FENS.iter()).copied().collect()
+}
+
+#[cfg(not(chess_verif_shuttle))]
+fn extra_fens() -> Vec<&'static str> {
+    Vec::new()
 }
 
 fn arg<'a>(args: &'a [String], name: &str) -> Option<&'a str> {
@@ -349,7 +374,7 @@ fn main() {
             match model::self_test(deep) {
                 Ok(()) => {
                     let mut bad = false;
-                    for f in gen::SPECIAL_FENS.iter().chain(gen::ENDGAME_FENS.iter()).chain(gen::TERMINAL_FENS.iter()) {
+                    for f in gen::SPECIAL_FENS.iter().chain(gen::ENDGAME_FENS.iter()).chain(gen::TERMINAL_FENS.iter()).chain(extra_fens().iter()) {
                         let p = model::Pos::from_fen(f).unwrap();
                         if !p.is_consistent() {
                             eprintln!("selftest: inconsistent built-in position {}", f);
@@ -443,12 +468,20 @@ fn main() {
                         plan.schedule = s;
                     }
                     sum.violations.push(ReplayFile {
-                        property: prop.clone(),
+                        property: plan.property.clone(),
                         class: v.class,
                         detail: v.detail,
                         original_ops: plan.ops.len(),
                         shrink_execs: 0,
                         plan,
+                        prefix: Some(Prefix {
+                            prop_arg: prop.clone(),
+                            tier: format!("{:?}", tier).to_lowercase(),
+                            seed,
+                            from,
+                            stride,
+                            upto: index,
+                        }),
                     });
                     if sum.violations.len() >= max_violations {
                         break;
@@ -475,6 +508,19 @@ fn main() {
                 std::process::exit(2)
             });
             start_watchdog(rf.property.clone(), true);
+            if args.iter().any(|a| a == "--with-prefix") {
+                if let Some(p) = &rf.prefix {
+                    // the worker's earlier runs, in the same process, to rebuild the engine's process-wide state
+                    let tier = parse_tier(Some(p.tier.as_str()));
+                    let mut index = p.from;
+                    while index < p.upto {
+                        let plan = gen_plan(&p.prop_arg, p.seed, index, tier);
+                        *WATCH.lock().unwrap() = Some((serde_json::to_string(&plan).unwrap(), Instant::now(), String::new(), cpu_seconds()));
+                        let _ = exec(&plan);
+                        index += p.stride;
+                    }
+                }
+            }
             *WATCH.lock().unwrap() = Some((serde_json::to_string(&rf.plan).unwrap(), Instant::now(), rf.class.clone(), cpu_seconds()));
             let o = exec(&rf.plan);
             *WATCH.lock().unwrap() = None;
